@@ -44,7 +44,7 @@ func c20R1345(c *Ctx) {
 		engine.Event("copied", c.P.IsCallTo(engine.Is("io.Copy"))),
 		engine.PredCond("copyErr", func(cd engine.Cond) (bool, int) {
 			if cd.IsRel && strings.HasPrefix(cd.X, "io.Copy(") && strings.HasSuffix(cd.X, "#1") && cd.Y == "nil" {
-				if cd.EdgeOrd(true) == engine.LT|engine.GT {
+				if isNEc(cd) {
 					return true, engine.True
 				}
 				return true, engine.False
@@ -52,8 +52,9 @@ func c20R1345(c *Ctx) {
 			return false, 0
 		}),
 		engine.PredCond("short", func(cd engine.Cond) (bool, int) {
+			cd, _ = cd.WithY(func(d string) bool { return d == "p1.Size" })
 			if cd.IsRel && strings.HasPrefix(cd.X, "io.Copy(") && strings.HasSuffix(cd.X, "#0") && cd.Y == "p1.Size" {
-				if cd.EdgeOrd(true) == engine.LT|engine.GT {
+				if isNEc(cd) {
 					return true, engine.True
 				}
 				return true, engine.False
